@@ -1,8 +1,75 @@
-"""B-conv: read -> write conversion (DESIGN.md 6 C12).  WORK IN PROGRESS HEADER - replaced at the end."""
+"""B-conv: read -> write conversion preserves meaning or fails (DESIGN.md 6 C12, findings F7 / F11).
+
+Postcondition shape everywhere: `Ok(out) ==> meaning(out) == meaning(in)` over mathematical integers (specs/conv.rs), so
+a narrowing cast or a wrapping product that loses information makes the clause fail.  All functions are owned by C12
+(write-side code: overflow / bounds / unwrap obligations are C12's too).
+
+EXPECTED RESULT ON THE PINNED TREE: `python3 vx/run.py conv` exits 1 with exactly 21 failed obligations, all in
+write/cfi.rs `mod convert`, all genuine (finding F7), each with a native reproducer:
+  write::cfi::convert::CallFrameInstruction::from
+      [C12:cfi-advance-loc] [C12:cfi-def-cfa] [C12:cfi-def-cfa-sf] [C12:cfi-def-cfa-offset] [C12:cfi-def-cfa-offset-sf]
+      [C12:cfi-offset] [C12:cfi-offset-extended-sf] [C12:cfi-val-offset] [C12:cfi-val-offset-sf] [C12:cfi-args-size]
+                                                        -> native/src/bin/f_conv_3.rs (`as i32` / `as u32` narrowings)
+      8 x "possible arithmetic underflow/overflow": `*offset += delta * caf as u32` (product and sum),
+      4 x `factored_offset * daf`, 2 x `factored_offset as i64 * daf`          -> native/src/bin/f_conv_4.rs
+  write::cfi::convert::CommonInformationEntry::from   [C12:cie-code-alignment] [C12:cie-data-alignment]  -> f_conv_1.rs
+  write::cfi::convert::FrameDescriptionEntry::from    [C12:fde-length]                                     -> f_conv_2.rs
+Everything else is discharged, including the `*-inrange` twins of the failing clauses (exactness on the sub-domain the
+write-side operand types can represent), which keep guarding the mapping while the unconditional clauses fail.
+Finding F11 (line program conversion, `ConvertLineProgram::read_row`) is reproduced natively only: f_conv_5.rs.
+
+Functions under contract (real text, verified):
+  write/cfi.rs  convert::CallFrameInstruction::from   per read-side instruction kind (DWARF 5 6.4.2): same CfiSem (CFA / register
+                                                      rule in unfactored units), set_loc must fail, advance_loc adds delta*caf to
+                                                      the location, nop emits nothing; expression operands are the converted block
+                convert::CommonInformationEntry::from factors, RA register, encoding, augmentation, personality, and the initial
+                                                      instruction sequence (loop invariant over the decoded sequence)
+                convert::FrameDescriptionEntry::from  address, length, LSDA, and the (location, rule) sequence of the instructions
+                CommonInformationEntry::new, FrameDescriptionEntry::new
+  write/range.rs convert::RangeList::from             every raw entry kind -> write-side entry, base-address disambiguation rule
+                                                      (`have_base_address` == CU low_pc != 0 or a base entry seen), only empty
+                                                      ranges may be left out, order kept (loop invariant rng_list_rel)
+  write/loc.rs   convert::LocationList::from          same for location lists incl. the location description of each entry
+  write/mod.rs   From<read::Error> for ConvertError;  write/unit.rs NoConvertDebugInfoRef (both methods)
+  read/cfi.rs    CIE accessors encoding/code_alignment_factor/data_alignment_factor/return_address_register, FDE accessors
+                 cie/initial_address/len, UnwindExpression::get (window of the section)            [owner C05, helper facts]
+
+Rewrites beyond the standard rules (all logged as custom rules in the evidence):
+  R-DYN    `convert_address: &dyn Fn(u64) -> Option<Address>` -> generic `&ConvAddr`, `ConvAddr: Fn(u64) -> Option<Address>` in
+           the where clause (Verus has no `dyn Fn`); bodies unchanged.
+  R-DERIVE types containing the mutually recursive write::Expression/Operation keep only derive(Debug).
+  closures `|x| ...` get a parameter type, a contract and (where the body is a bare expression) braces - insertions only.
+  clean_guarded(): lib.r_letchain cannot scan items ending in `if` match guards; same rules applied without R-LETCHAIN.
+  wsource(): `#[cfg(debug_assertions)]` evaluated as true (as batches/wcore.py does).
+
+ASSUMED (TRUSTED ledger; reason each is outside this batch / Verus):
+  from (write::op::convert::Expression::from)  R-EXTBODY: Cow (`to_slice()?.into_owned().into()`), `Vec::binary_search`, `&dyn`
+        trait object, recursion through EntryValue, read::OperationIter.  Contract: Ok(e) ==> expr_conv(bytes, encoding, has_unit, e)
+        with `expr_conv` UNINTERPRETED: the CFI / location-list layers only prove that the right block is handed to it and its
+        result is stored in the right place.  The per-operation mapping (Piece bits->bytes, deref_size == address_size,
+        branch-target remap) is NOT DECIDED here.
+  CallFrameInstructionIter / RawRngListIter / RawLocListIter + next  models: a ghost sequence `rest()` popped by `next`
+        (decoding is C05/C06/C08's business; those batches own the real iterators).
+  instructions (CIE/FDE), lsda_encoding, personality_with_encoding, fde_address_encoding, is_signal_trampoline, lsda
+        read-side accessors using Option::and_then/is_some_and closures or building the iterator: contracts = field values.
+  encoding, address (UnitRef model)  read::UnitRef is modelled (low_pc field, encoding(), address(index) = uninterpreted
+        function of unit and index): the real type derefs twice (UnitRef -> &Unit -> UnitHeader) and reads .debug_addr.
+  write-side id types (UnitId, UnitEntryId, BaseId) are hand expansions of `define_id!`.
+  Helper preconditions on the caller's address function: it may be called on every address (`CA_TOTAL`), and
+  [C12:convert-address-constant-identity] it leaves unrelocated values unchanged (`ca(a) == Some(Constant(c)) ==> c == a`):
+  gimli passes list *offsets* through it and documents only that these "will be Address::Constant"; an offset-changing
+  function would silently shift every offset pair.  This is an undocumented API requirement, recorded as an assumption.
+
+NOT DECIDED: FrameTable::from (hashbrown entry API, `Section::cie_from_offset` fn item, CfiEntriesIter); Expression::from body;
+ConvertLineProgram::{new, read_row, convert_row, read_sequence, convert} (need models of the whole reader-side line state
+machine; F11 is shown natively); ConvertUnit*/entry-id maps; idempotence of a second conversion; an advance_loc inside CIE
+initial instructions is dropped by CommonInformationEntry::from (ill-formed input; the CIE clause compares rules only);
+K-CFICONV (Kani) was not built: the native reproducers already give concrete counterexamples for every narrowing finding.
+"""
 from lib import *
 from batches import core
 
-TRUSTED = list(core.TRUSTED) + ['encoding', 'address', 'from', 'CallFrameInstructionIter', 'next', 'lsda_encoding', 'personality_with_encoding', 'fde_address_encoding', 'is_signal_trampoline', 'instructions', 'lsda', 'RawRngListIter']
+TRUSTED = list(core.TRUSTED) + ['encoding', 'address', 'from', 'CallFrameInstructionIter', 'next', 'lsda_encoding', 'personality_with_encoding', 'fde_address_encoding', 'is_signal_trampoline', 'instructions', 'lsda', 'RawRngListIter', 'RawLocListIter']
 VERUS_ARGS = ['--rlimit', '40']
 # CallFrameInstruction::from alone has 18 genuine failing obligations (finding F7): report all of them, not the first 3
 MULTIPLE_ERRORS = 40
@@ -88,6 +155,26 @@ impl<'a, R: Reader> UnitRef<'a, R> {
 '''
 
 
+def clean_guarded(it, offset=True):
+    """`Item.clean()` for items that end in a `match` with `if` guards: lib.r_letchain scans from every `if` to the next
+    `{` and runs off the end of the text on a trailing guard (IndexError).  The same rules R-ATTR, R-ASSERT, R-CLOSURE,
+    R-OFFSET are applied through lib's own rule functions; R-LETCHAIN is skipped after checking that the item has no let
+    chain at all."""
+    import re as _re
+    assert it.base is None
+    c = it.ctx
+    s = r_attr(it.text, c)
+    s = r_assert(s, c)
+    s = r_closure(s, c)
+    if _re.search(r'\bif\s+let\b[^{;]*&&', s) or _re.search(r'&&\s*let\b', s):
+        raise Lost(it._where('') + ': clean_guarded on an item with a let chain')
+    if offset:
+        s = r_offset(s, c)
+    it.text = s
+    it.base = s
+    return it
+
+
 def debug_only(it):
     """R-DERIVE: a datatype that (transitively) contains the recursive write::Expression/Operation pair keeps only
     `derive(Debug)`: Verus rejects the derived Clone/PartialEq of mutually recursive types as a cyclic definition.  No
@@ -133,13 +220,17 @@ def cfi_instruction_clauses():
         out.append(f'[C12:cfi-{snake(k)}] from_instruction is {k} ==> (res matches Ok(r) ==> (r matches Some(w) && write_cfi_sem(w) == {sem} && *final(offset) == *old(offset)))')
     out.append('[C12:cfi-expr] res matches Ok(Some(w)) ==> (read_cfi_expr(from_instruction) matches Some(ue) ==> (write_cfi_expr(w) matches Some(e) && '
                '({ let s = frame.section_rv(); ue.offset + ue.length <= s.len && expr_conv(RView { root: s.root, start: s.start + ue.offset as nat, len: ue.length as nat, be: s.be }, from_cie.enc(), false, e) })))')
+    # exactness on the representable sub-domain (holds on the pinned tree; guards the mapping while the clauses above fail)
+    out.append(f'[C12:cfi-inrange-exact] cfi_in_range(from_instruction, from_cie.caf() as int, from_cie.daf() as int, *old(offset) as int) ==> (res matches Ok(r) ==> (match r {{ '
+               f'Some(w) => write_cfi_sem(w) == {sem} && *final(offset) == *old(offset) && !(from_instruction is AdvanceLoc) && !(from_instruction is Nop), '
+               f'None => (from_instruction is Nop && *final(offset) == *old(offset)) || (from_instruction matches {RI}::AdvanceLoc {{ delta }} && *final(offset) as int == *old(offset) as int + delta as int * from_cie.caf() as int) }}))')
     return par(out)
 
 
 def populate_write_base(ctx, sk):
     wm = wsource('write/mod.rs', ctx)
     wu = Source('write/unit.rs', ctx)
-    sk.module('cspec', 'use crate::vspec::*;')
+    sk.module('cspec', 'use crate::vspec::*;\nuse crate::read::reader::ReaderOffset;')
     sk.add('cspec', core.rd('specs/conv.rs'), label='cspec')
     sk.module('write', '''use core::result;
 use crate::constants;
@@ -254,7 +345,7 @@ use crate::vspec::*;''')
     sk.add('read::cfi', rc.item(r'^pub struct FrameDescriptionEntry<R, Offset').clean(offset=False, rejrec=['R', 'Offset']))
     fde = rc.item(r'^impl<R: Reader> FrameDescriptionEntry<R> \{\s*pub fn offset', label='FrameDescriptionEntry')
     fde.keep_only(['cie', 'instructions', 'initial_address', 'len', 'lsda'])
-    fde.extbody(['instructions', 'lsda', 'RawRngListIter'])
+    fde.extbody(['instructions', 'lsda'])
     fde.clean()
     fde.insert_members('''    pub closed spec fn cie_v(&self) -> CommonInformationEntry<R> { self.cie }
     pub closed spec fn initial(&self) -> u64 { self.initial_address }
@@ -350,12 +441,13 @@ use crate::vspec::*;
 use crate::cspec::*;''')
     rl = wr.item(r'^    impl RangeList \{', within=r'^mod convert \{', label='RangeList')
     r_dyn(rl, 'fn from<R: Reader<Offset = usize>>(', 'fn from<R: Reader<Offset = usize>, ConvAddr>(', ') -> ConvertResult<Self> {', ') -> ConvertResult<Self> where ' + CA_BOUND + ' {')
-    rl.clean()
+    clean_guarded(rl)
     rl.own(OWN)
-    rl.insert_after('let convert_address = |x|', ' -> (cr: ConvertResult<Address>)\n requires ' + CA_TOTAL + '\n ensures cr matches Ok(a) ==> conv_addr(convert_address, x, a)\n')
+    rl.insert_after('let convert_address = |x|', ' -> (cr: ConvertResult<Address>)\n requires ' + CA_TOTAL + '\n ensures cr matches Ok(a) ==> conv_addr(convert_address, x, a)\n{')
+    rl.insert_after('convert_address(x).ok_or(ConvertError::InvalidAddress)', ' }')
     rl.insert_after('let convert_address = |x', ': u64')
     U = 'from_unit.model_id'
-    rl.splice('from', ret='res', requires=[CA_TOTAL, CA_CONST_ID], ensures=par([
+    rl.splice('from', ret='res', canary=True, requires=[CA_TOTAL, CA_CONST_ID], ensures=par([
         f'[C12:rnglist-entries] res matches Ok(l) ==> rng_list_rel(convert_address, {U}, from.rest(), from_unit.low_pc != 0, l.0@)',
     ]), loops={0: f'invariant 0 <= k <= full.len(), from.rest() == full.skip(k), forall|a: u64| call_requires(ca, (a,)), '
                   'forall|a: u64, c: u64| call_ensures(ca, (a,), Some(Address::Constant(c))) ==> c == a, '
@@ -370,6 +462,53 @@ use crate::cspec::*;''')
                 ('Ok(RangeList(ranges))', 'proof { assert(full.take(k) =~= full); }')],
         after=[('ranges.push(range);', 'proof { assert(ranges@.drop_last() =~= old_ranges); }')])
     sk.add('write::range::convert', rl)
+
+
+def populate_loc(ctx, sk):
+    rl = Source('read/loclists.rs', ctx)
+    wl = Source('write/loc.rs', ctx)
+    sk.mods['read']['uses'] += '\npub use self::loclists::*;'
+    sk.module('read::loclists', '''use crate::common::{DebugAddrIndex, Encoding};
+use crate::read::{Error, Expression, Reader, ReaderOffset, Result};''')
+    sk.add('read::loclists', rl.item(r'^pub enum RawLocListEntry<R: Reader>').clean(offset=False, rejrec=['R']))
+    sk.add('read::loclists', iter_model('RawLocListIter', 'RawLocListEntry<R>', 'RawLocListEntry<R>'), label='RawLocListIter(model)')
+    sk.mods['write']['uses'] += '\npub use self::loc::*;'
+    sk.module('write::loc', '''use crate::common::Encoding;
+use crate::write::{Address, Error, Expression, Result};''')
+    sk.add('write::loc', debug_only(wl.item(r'^pub struct LocationList\(')).clean())
+    sk.add('write::loc', debug_only(wl.item(r'^pub enum Location \{')).clean())
+    sk.module('write::loc::convert', '''use super::*;
+use crate::read::{self, Reader};
+use crate::write::{ConvertDebugInfoRef, ConvertError, ConvertResult};
+use crate::vspec::*;
+use crate::cspec::*;''')
+    ll = wl.item(r'^    impl LocationList \{', within=r'^mod convert \{', label='LocationList')
+    r_dyn(ll, 'fn from<R: Reader<Offset = usize>>(', 'fn from<R: Reader<Offset = usize>, ConvAddr>(', ') -> ConvertResult<Self> {', ') -> ConvertResult<Self> where ' + CA_BOUND + ' {')
+    clean_guarded(ll)
+    ll.own(OWN)
+    ll.insert_after('let convert_expression = |x|', ' -> (cr: ConvertResult<Expression>)\n requires ' + CA_TOTAL + '\n ensures cr matches Ok(e) ==> expr_conv(x.0.rv(), from_unit.model_encoding, true, e)\n')
+    ll.insert_after('let convert_expression = |x', ': read::Expression<R>')
+    ll.insert_after('let convert_address = |x|', ' -> (cr: ConvertResult<Address>)\n requires ' + CA_TOTAL + '\n ensures cr matches Ok(a) ==> conv_addr(convert_address, x, a)\n{')
+    ll.insert_after('convert_address(x).ok_or(ConvertError::InvalidAddress)', ' }')
+    ll.insert_after('let convert_address = |x', ': u64')
+    U, E = 'from_unit.model_id', 'from_unit.model_encoding'
+    ll.splice('from', ret='res', canary=True, requires=[CA_TOTAL, CA_CONST_ID], ensures=par([
+        f'[C12:loclist-entries] res matches Ok(l) ==> loc_list_rel(convert_address, {U}, {E}, from.rest(), from_unit.low_pc != 0, l.0@)',
+    ]), loops={0: f'invariant 0 <= k <= full.len(), from.rest() == full.skip(k), forall|a: u64| call_requires(ca, (a,)), '
+                  'forall|a: u64, c: u64| call_ensures(ca, (a,), Some(Address::Constant(c))) ==> c == a, '
+                  'forall|x: u64| call_requires(convert_address, (x,)), forall|x: u64, r: ConvertResult<Address>| call_ensures(convert_address, (x,), r) ==> (r matches Ok(a) ==> conv_addr(ca, x, a)), '
+                  'forall|x: read::Expression<R>| call_requires(convert_expression, (x,)), '
+                  f'forall|x: read::Expression<R>, r: ConvertResult<Expression>| call_ensures(convert_expression, (x,), r) ==> (r matches Ok(e) ==> expr_conv(x.0.rv(), {E}, true, e)), '
+                  f'have_base_address == loc_hb(full.take(k), hb0), loc_list_rel(ca, {U}, {E}, full.take(k), hb0, loc_list@),\n'
+                  ' ensures k == full.len(),\n decreases full.len() - k'},
+        before=[('let convert_expression = |x', 'let ghost ca = convert_address; let ghost full = from.rest(); let ghost hb0 = from_unit.low_pc != 0; let ghost mut k: int = 0;'),
+                ('let loc = match from_loc {', 'let ghost hb_pre = have_base_address; proof { k = k + 1; assert(full.take(k).drop_last() =~= full.take(k - 1)); assert(full.take(k).last() == full[k - 1]); '
+                 'assert(full.skip(k - 1).skip(1) =~= full.skip(k)); assert(full.skip(k - 1)[0] == full[k - 1]); }'),
+                ('match loc {', f'proof {{ assert(loc_entry_rel(ca, {U}, {E}, full[k - 1], hb_pre, loc)); }}'),
+                ('loc_list.push(loc);', 'let ghost old_list = loc_list@;'),
+                ('Ok(LocationList(loc_list))', 'proof { assert(full.take(k) =~= full); }')],
+        after=[('loc_list.push(loc);', 'proof { assert(loc_list@.drop_last() =~= old_list); }')])
+    sk.add('write::loc::convert', ll)
 
 
 def populate_write_cfi(ctx, sk):
@@ -426,7 +565,7 @@ use crate::cspec::*;''')
     # the closure gets its parameter type and a contract (insertions only): it returns what Expression::from returns
     ci.insert_after('let convert_expression = |x|', ' -> (cr: ConvertResult<Expression>)\n requires CA_TOTAL\n ensures cr matches Ok(e) ==> expr_conv(x.0.rv(), from_cie.enc(), false, e)\n'.replace('CA_TOTAL', CA_TOTAL))
     ci.insert_after('let convert_expression = |x', ': read::Expression<R>')
-    ci.splice('from', ret='res', requires=[CA_TOTAL], ensures=cfi_instruction_clauses())
+    ci.splice('from', ret='res', canary=True, requires=[CA_TOTAL], ensures=cfi_instruction_clauses())
     sk.add('write::cfi::convert', ci)
 
     CAF, DAF = 'from_cie.caf() as int', 'from_cie.daf() as int'
@@ -438,9 +577,10 @@ use crate::cspec::*;''')
     r_dyn(cc, 'fn from<R, Section>(', 'fn from<R, Section, ConvAddr>(', 'where\n            R: Reader<Offset = usize>,', 'where\n            ' + CA_BOUND + '\n            R: Reader<Offset = usize>,')
     cc.clean()
     cc.own(OWN)
-    cc.splice('from', ret='res', requires=[CA_TOTAL], ensures=par([
+    cc.splice('from', ret='res', canary=True, requires=[CA_TOTAL], ensures=par([
         '[C12:cie-code-alignment] res matches Ok(c) ==> c.caf() as int == from_cie.caf() as int',
         '[C12:cie-data-alignment] res matches Ok(c) ==> c.daf() as int == from_cie.daf() as int',
+        '[C12:cie-factors-inrange] res matches Ok(c) ==> (from_cie.caf() <= 255 ==> c.caf() as int == from_cie.caf() as int) && (-128 <= from_cie.daf() <= 127 ==> c.daf() as int == from_cie.daf() as int)',
         '[C12:cie-return-address-register] res matches Ok(c) ==> c.ra() == from_cie.ra()',
         '[C12:cie-encoding] res matches Ok(c) ==> c.enc() == from_cie.enc()',
         '[C12:cie-augmentation] res matches Ok(c) ==> c.lsda_encoding == from_cie.aug_lsda() && c.signal_trampoline == from_cie.aug_signal() && '
@@ -465,9 +605,10 @@ use crate::cspec::*;''')
     fc.clean()
     fc.own(OWN)
     FCAF, FDAF = 'from_fde.cie_v().caf() as int', 'from_fde.cie_v().daf() as int'
-    fc.splice('from', ret='res', requires=[CA_TOTAL], ensures=par([
+    fc.splice('from', ret='res', canary=True, requires=[CA_TOTAL], ensures=par([
         '[C12:fde-address] res matches Ok(f) ==> conv_addr(convert_address, from_fde.initial(), f.addr())',
         '[C12:fde-length] res matches Ok(f) ==> f.len() as int == from_fde.range() as int',
+        '[C12:fde-length-inrange] res matches Ok(f) ==> (from_fde.range() <= 0xffff_ffff ==> f.len() as int == from_fde.range() as int)',
         '[C12:fde-lsda] res matches Ok(f) ==> (match from_fde.lsda_v() { Some(p) => (f.lsda matches Some(a) && conv_addr(convert_address, pointer_value(p), a)), None => f.lsda is None })',
         f'[C12:fde-instructions] res matches Ok(f) ==> wfde_rows(f.insns()) =~= cfi_rows(from_fde.insn_seq(), {FCAF}, {FDAF})',
     ]), loops={0: f'invariant 0 <= k <= full.len(), full == from_fde.insn_seq(), from_instructions.rest() == full.skip(k), {CA_TOTAL}, *from_cie == from_fde.cie_v(), '
@@ -488,6 +629,7 @@ def populate(ctx, sk):
     populate_write_cfi(ctx, sk)
     populate_write_op(ctx, sk)
     populate_lists(ctx, sk)
+    populate_loc(ctx, sk)
     return sk
 
 
